@@ -7,6 +7,8 @@ miss=0
 for id in $ids; do
   d=seeded/$id
   [ -f $d/patch.diff ] || continue
+  obs=$(python3 -c "import json;print(json.load(open('$d/meta.json')).get('obsolete',''))")
+  if [ -n "$obs" ]; then echo "obsolete $id ($obs)"; continue; fi
   exp=$(python3 -c "import json;m=json.load(open('$d/meta.json'));print(','.join(m.get('detected_by_quick_checks',[])) or 'none')")
   out=$(tools/try_seeded.sh $d 2>&1)
   if echo "$out" | grep -q 'patch does not apply'; then echo "stale   $id (patch no longer applies to HEAD)"; continue; fi
